@@ -9,37 +9,45 @@ import subprocess
 def run(pid, cfg, tier, seed, tally, ck):
     viol = []
     streams = {}
-    lines = {}
+    compared = 0
+    bins = {}
     for flavour in ("core", "alloc", "release"):
         ok, out, hbin = ck.build_harness(flavour)
         if not ok:
             rp = ck.write_replay(pid, "build", {"flavour": flavour, "error": out[-3000:], "note": "crate (or its API client) does not build in this feature configuration"})
             viol.append(("build:" + flavour, rp, False))
             continue
-        p = subprocess.run([hbin, "core", "quick", str(seed)], stdout=subprocess.PIPE, stderr=subprocess.PIPE)
-        if p.returncode != 0:
-            rp = ck.write_replay(pid, "abort", {"flavour": flavour, "harness_rc": p.returncode, "stderr": p.stderr.decode("utf-8", "replace")[-2000:]})
-            viol.append(("abort:" + flavour, rp, False))
+        bins[flavour] = hbin
+    # the thorough tier repeats the comparison with further seeds (the stream of the first seed is also the one the
+    # Lean model is compared with)
+    seeds = [seed] if tier == "quick" else [seed + i for i in range(4)]
+    for sd in seeds:
+        lines = {}
+        for flavour, hbin in bins.items():
+            p = subprocess.run([hbin, "core", "quick", str(sd)], stdout=subprocess.PIPE, stderr=subprocess.PIPE)
+            if p.returncode != 0:
+                rp = ck.write_replay(pid, "abort", {"flavour": flavour, "seed": sd, "harness_rc": p.returncode, "stderr": p.stderr.decode("utf-8", "replace")[-2000:]})
+                viol.append(("abort:" + flavour, rp, False))
+                continue
+            body = [l for l in p.stdout.decode("utf-8", "replace").splitlines() if not l.startswith("#")]
+            streams["%s@%d" % (flavour, sd)] = hashlib.sha256("\n".join(body).encode()).hexdigest()
+            lines[flavour] = body
+        ref = lines.get("release")
+        if ref is None:
             continue
-        body = [l for l in p.stdout.decode("utf-8", "replace").splitlines() if not l.startswith("#")]
-        streams[flavour] = hashlib.sha256("\n".join(body).encode()).hexdigest()
-        lines[flavour] = body
-    ref = lines.get("release")
-    compared = 0
-    if ref is not None:
         for flavour in ("core", "alloc"):
             other = lines.get(flavour)
             if other is None:
                 continue
             compared += min(len(ref), len(other))
-            if other != ref:
+            if other != ref and len(viol) < 5:
                 k = next((i for i, (a, b) in enumerate(zip(ref, other)) if a != b), min(len(ref), len(other)))
                 rp = ck.write_replay(pid, "config-divergence", {
                     "flavour": flavour, "line_index": k,
                     "std_line": ref[k] if k < len(ref) else "<missing>", "line": other[k] if k < len(other) else "<missing>",
-                    "seed": seed})
+                    "seed": sd})
                 viol.append(("divergence:" + flavour, rp, False))
-    cov = {"programs": len(streams), "disagreements_checked": compared, "stream_sha256": streams,
+    cov = {"programs": len(bins), "seeds": seeds, "disagreements_checked": compared, "stream_sha256": streams,
            "explanation": "three builds of the harness against /repo (no features / alloc / std) ran the same deterministic corpus; "
                           "streams compared line by line and the std stream against the Lean model"}
     return viol, cov
